@@ -64,6 +64,18 @@ def build(ctx, incdir=None):
             if ctx.quick and name != "p0" and u not in ("pos", "kw"):
                 continue
             add("one p-array", allm if name == "p0" else ["tdm", "none"], [A] + stmts)
+    # long p-arrays (one value per temporal mode: rows of 64 .. 259 entries, also several long rows), every entry different
+    def plong(name, t, shape, ds):
+        r, c = shape
+        mk = {"int": lambda k: N(str(k + 1)) if k % 7 else U("-", N(str(k + 1))), "float": lambda k: N(repr(k * 0.5 + 0.25)),
+              "complex": lambda k: N("%d+%dj" % (k + 1, k % 5 + 1))}[t]
+        return ("arr", t, name, shape if ds else None, [[mk(i * c + j) for j in range(c)] for i in range(r)])
+    for t, shape, ds in itertools.product(ELEMS, ((1, 64), (1, 65), (1, 100), (1, 128), (1, 259), (2, 70), (3, 130), (70, 2)), (False, True)):
+        if ctx.quick and ds and shape[0] > 1:
+            continue
+        A = plong("p0", t, shape, ds)
+        add("long p-array", ["tdm", "tdm-target", "none"], [A, st("Sgate", [V("p0"), N("0.0")], [], [N("1")]), st("MeasureHomodyne", [], [("phi", V("p0"))])])
+        add("long p-array", ["tdm"], [A, plong("p1", "float", (1, shape[1]), False), st("G", [V("p1"), V("p0")], [("k", IDX("p0", N(str(shape[0] * shape[1] - 1))))])])
     # two / three p-arrays
     names = ["p0", "p1", "p12"]
     types = list(ELEMS)
